@@ -230,6 +230,7 @@ def cprop_case(seed):
         ws.simctl_int[0] = np.array(ctl0); ws.simctl_int[1] = np.array(modes)
         if getattr(ws, 'abuf', None) is not None: ws.abuf[...] = 0
         before = np.array(ws.c)
+        if p_ == 'cpu': stim_before = before
         locs = [int(x) for x in np.array(ws.c_locs)]; capv = [int(x) for x in np.array(ws.c_caps)]
         ops = np.array(ws.ops)
         n_acc = int(ws.abuf_len) if int(ws.abuf_len) > 0 else 0
@@ -264,6 +265,35 @@ def cprop_case(seed):
                            f'strip={strip} reuse={reuse} caps={caps} real={real[:400]} model={model[:400]}'))
         if not rest_ok:
             broken.append((f'path-tie: c_prop(sims={k}) of {type(ws).__name__} changed a lane >= {k} (C06.c_prop_paths_agree: lanes beyond sims are untouched)', f'sims={sims}'))
+    # hypotheses of C03.cprop_program_order_sound / C13.activity_all_circuits on THIS case (the tie and the theorems must meet on the same
+    # tables): map certificate MapIn.check on the real tables (driver mapok), Net.wfB / orderOKB / forksOKB / readsDrivenB on the real circuit
+    # and order (driver simopscert), level boundaries contiguous from 0 to len(ops) with level_stops sent as the object has them,
+    # c_caps_min >= 4 (WaveSim passes 4), delays >= 0, and every (P)PI / zero region of every lane holding a well-formed waveform
+    try:
+        ws = objs['cpu']
+        ops6 = '/'.join(','.join(str(int(x)) for x in row[:6]) for row in np.array(ws.ops))
+        rest = '|'.join([ops6, ','.join(str(int(x)) for x in ws.level_starts), ','.join(str(int(x)) for x in np.array(ws.c_locs)),
+                         ','.join(str(int(x)) for x in np.array(ws.c_caps)), str(int(ws.c_len))])
+        order = ','.join(str(n.index) for n in c.topological_order())
+        ans = common.run_driver([f'net {circ.dump_net(c)}', f'mapok {int(strip)} 4 {rest}', f'simopscert {int(strip)} {order}'])
+        starts = [int(x) for x in ws.level_starts]; stops = [int(x) for x in ws.level_stops]
+        contiguous = (not starts and len(ws.ops) == 0) or (starts[0] == 0 and stops[-1] == len(ws.ops) and starts[1:] == stops[:-1] and all(a <= b for a, b in zip(starts, stops)))
+        TMIN, TMAX, TOVL = wc.consts()
+        def wf_wave(ents):
+            body = ents[1:] if ents and ents[0] <= TMIN else ents
+            return all(TMIN < t < TMAX for t in body) and all(a <= b for a, b in zip(body, body[1:]))   # TMIN only in front, finite, non-decreasing
+        locs_, caps_ = np.array(ws.c_locs), np.array(ws.c_caps)
+        slots = [ws.ppi_offset + int(y) for y in ws.pippi_s_locs]
+        stim_ok = all(wf_wave(wc.read_wave(stim_before, int(locs_[j]), int(caps_[j]), x)[0]) for j in slots if locs_[j] >= 0 for x in range(sims))
+        hyp = (f"map={'ok' if ans[1].startswith('ok') else 'REJECTED'} net={'ok' if ans[2] == 'wf=true order=true forks=true reads=true' else ans[2].replace(' ', ',')} "
+               f"levels={'contiguous' if contiguous else 'NOT-contiguous'} delays={'nonneg' if float(np.array(ws.delays).min()) >= 0 else 'negative'} stim={'wf' if stim_ok else 'NOT-wf'}")
+    except common.DriverError:
+        raise
+    except Exception as ex:
+        hyp = f'not-evaluated({type(ex).__name__})'
+    tags.append('cprop-hyp:' + hyp.replace(' ', ';'))
+    if 'REJECTED' in hyp or 'NOT-contiguous' in hyp or 'wf=false' in hyp or 'order=false' in hyp:
+        broken.append(('path-tie-cprop: hypotheses of C03.cprop_program_order_sound / C13.activity_all_circuits on the real tables (map certificate, Net.wfB, orderOKB, contiguous levels)', hyp))
     # oracle (property C06 itself): the two code paths leave the same waveform in every region and the same accumulators
     diff = None
     if reals.get('cpu') != reals.get('gpu'):
